@@ -99,15 +99,18 @@ func registerZZ(in *Interp) {
 		return &SymStr{E: e}
 	}
 	I[zz+"Digits"] = func(in *Interp, fr *frame, fn *ssa.Function, a []value) value {
+		// n ASCII digits: each is an Int variable d in 0..9, the character is '0'+d
 		base := strArg(a[0])
 		n := in.intArg(a[1], "n")
 		e := make([]value, n)
 		for i := range e {
 			nm := in.run.uniq(fmt.Sprintf("%s[%d]", base, i))
-			t := in.TC.Declare(smtName(nm), BV(8))
-			in.run.inputs = append(in.run.inputs, Input{Name: nm, Kind: "byte", Term: t})
-			in.assume(in.TC.And(in.TC.App(BoolSort, "bvule", BVConst('0', 8), t), in.TC.App(BoolSort, "bvule", t, BVConst('9', 8))))
-			e[i] = &Sym{T: t}
+			d := in.TC.Declare(smtName(nm), IntSort)
+			in.run.inputs = append(in.run.inputs, Input{Name: nm, Kind: "digit", Term: d})
+			in.assume(in.TC.And(in.TC.App(BoolSort, "<=", IntConst(0), d), in.TC.App(BoolSort, "<=", d, IntConst(9))))
+			ch := in.TC.App(BV(8), "(_ int2bv 8)", in.TC.App(IntSort, "+", IntConst(48), d))
+			in.TC.MarkDigit(ch, d)
+			e[i] = &Sym{T: ch}
 		}
 		if n == 0 {
 			return ""
@@ -369,6 +372,9 @@ func registerStd(in *Interp) {
 			case int64:
 				return native(rune(r))
 			case *Sym:
+				if _, ok := in.TC.DigitOf(r.T); ok {
+					return native('5')
+				}
 				return symOrBool(in.unicodePred(name, native, r.T))
 			}
 			panic("unicode pred")
@@ -391,6 +397,9 @@ func registerStd(in *Interp) {
 		if s, ok := a[0].(string); ok {
 			return int64(utf8.RuneCountInString(s))
 		}
+		if in.allASCII(a[0].(*SymStr)) {
+			return int64(len(a[0].(*SymStr).E))
+		}
 		return in.callBody(fr, fn, a)
 	}
 	I["unicode/utf8.DecodeRuneInString"] = func(in *Interp, fr *frame, fn *ssa.Function, a []value) value {
@@ -405,6 +414,9 @@ func registerStd(in *Interp) {
 				return tuple{b0, int64(1)}
 			}
 		case *Sym:
+			if _, ok := in.TC.DigitOf(b0.T); ok {
+				return tuple{&Sym{T: in.resize(b0.T, 32, false)}, int64(1)}
+			}
 			// ASCII fast path (same result as the library, simpler term)
 			if in.branch(in.TC.App(BoolSort, "bvult", b0.T, BVConst(utf8.RuneSelf, 8))) {
 				return tuple{&Sym{T: in.resize(b0.T, 32, false)}, int64(1)}
@@ -609,9 +621,45 @@ func registerStd(in *Interp) {
 	I["errors.New"] = func(in *Interp, fr *frame, fn *ssa.Function, a []value) value {
 		return in.makeError(fr, a[0])
 	}
+	// github.com/fatih/color: plain output (the properties are stated for --color=false)
+	I["github.com/fatih/color.New"] = func(in *Interp, fr *frame, fn *ssa.Function, a []value) value {
+		var cell value = zero(deref(fn.Signature.Results().At(0).Type()))
+		return &cell
+	}
+	I["(*github.com/fatih/color.Color).Fprintf"] = func(in *Interp, fr *frame, fn *ssa.Function, a []value) value {
+		s, _ := in.sprintf(fr, a[2], sliceArg(a[3]))
+		return in.writeTo(fr, a[1].(iface), s)
+	}
+	I["(*github.com/fatih/color.Color).Sprintf"] = func(in *Interp, fr *frame, fn *ssa.Function, a []value) value {
+		s, _ := in.sprintf(fr, a[1], sliceArg(a[2]))
+		return s
+	}
+	I["(*github.com/fatih/color.Color).Fprint"] = func(in *Interp, fr *frame, fn *ssa.Function, a []value) value {
+		return in.writeTo(fr, a[1].(iface), in.sprint(fr, sliceArg(a[2]), false))
+	}
+	I["os.Getenv"] = func(in *Interp, fr *frame, fn *ssa.Function, a []value) value { return "" }
 	I["os.Exit"] = func(in *Interp, fr *frame, fn *ssa.Function, a []value) value {
 		panic(targetPanic{msg: fmt.Sprintf("os.Exit(%v)", a[0]), v: iface{t: in.runtimeErrorType(), v: "os.Exit"}})
 	}
+}
+
+// allASCII: every element is a concrete byte < 0x80 or a known digit character.
+func (in *Interp) allASCII(s *SymStr) bool {
+	for _, e := range s.E {
+		switch e := e.(type) {
+		case int64:
+			if e >= utf8.RuneSelf {
+				return false
+			}
+		case *Sym:
+			if _, ok := in.TC.DigitOf(e.T); !ok {
+				return false
+			}
+		default:
+			return false
+		}
+	}
+	return true
 }
 
 func isZeroish(v value) bool {
